@@ -134,10 +134,14 @@ class HSTRPDatagramProtocol(DatagramProtocol, LoggingTrait):
             # connection request
             was_handled = True
             was_confirmed = True
-            self.hstrp_set_connected(connected=True)
-            if not pdu.pkt_type.is_ack:
-                # never confirm a confirmation (ACK of our own CONNECT keeps the CONNECT bit)
-                self.hstrp_send_ack(addr, pdu)
+            if pdu.pkt_type.is_reject:
+                # REJECT of our own CONNECT keeps the CONNECT bit: negative confirmation, no connect, never confirmed
+                self.log_warning(f"peer REJECT-ed our CONNECT S/N:{pdu.sn}")
+            else:
+                self.hstrp_set_connected(connected=True)
+                if not pdu.pkt_type.is_ack:
+                    # never confirm a confirmation (ACK of our own CONNECT keeps the CONNECT bit)
+                    self.hstrp_send_ack(addr, pdu)
         elif pdu.pkt_type.is_heartbeat:
             # heartbeat
             was_handled = True
@@ -148,14 +152,18 @@ class HSTRPDatagramProtocol(DatagramProtocol, LoggingTrait):
                 self.hstrp_send_heartbeat(addr)
         elif pdu.pkt_type.is_close:
             # connection teardown
-            self.hstrp_set_connected(connected=False)
             was_handled = True
             # CLOSE is not confirmed protocol
             was_confirmed = True
-            # confirm connection closing hstrp message
-            if not pdu.pkt_type.is_ack:
-                # never confirm a confirmation (ACK of our own CLOSE keeps the CLOSE bit)
-                self.hstrp_send_ack(addr, pdu)
+            if pdu.pkt_type.is_reject:
+                # REJECT of our own CLOSE keeps the CLOSE bit: negative confirmation, no close, never confirmed
+                self.log_warning(f"peer REJECT-ed our CLOSE S/N:{pdu.sn}")
+            else:
+                self.hstrp_set_connected(connected=False)
+                # confirm connection closing hstrp message
+                if not pdu.pkt_type.is_ack:
+                    # never confirm a confirmation (ACK of our own CLOSE keeps the CLOSE bit)
+                    self.hstrp_send_ack(addr, pdu)
         elif pdu.pkt_type.is_ack:
             # received confirmation from peer
             was_handled = True
